@@ -163,6 +163,8 @@ typedef struct { void *p; size_t sz; long seq; } vf_blk_t;
 static vf_blk_t *vf_tab; static unsigned vf_cap, vf_fill;      /* open addressing, grows; vf_fill counts live + tombstones */
 #define VF_TAB vf_cap
 static long vf_nlive, vf_live_bytes, vf_alloc_calls, vf_free_calls, vf_fail_from = -1, vf_failed, vf_bad_free;
+static int vf_fail_single;      /* fail only request number vf_fail_from (not the later ones) */
+static long vf_threads_created;
 static long vf_max_live_bytes;
 static pthread_mutex_t vf_amtx = PTHREAD_MUTEX_INITIALIZER;
 static int vf_fill_byte = 0x7f;
@@ -201,7 +203,7 @@ static size_t vf_block_size(void *p) {
 void *vf_malloc(size_t sz) {
     pthread_mutex_lock(&vf_amtx);
     vf_alloc_calls++;
-    if (vf_fail_from >= 0 && vf_alloc_calls >= vf_fail_from) { vf_failed++; pthread_mutex_unlock(&vf_amtx); return NULL; }
+    if (vf_fail_from >= 0 && (vf_fail_single ? vf_alloc_calls == vf_fail_from : vf_alloc_calls >= vf_fail_from)) { vf_failed++; pthread_mutex_unlock(&vf_amtx); return NULL; }
     void *p = malloc(sz ? sz : 1);
     if (p) { memset(p, vf_fill_byte, sz); vf_track(p, sz); }
     pthread_mutex_unlock(&vf_amtx);
@@ -242,7 +244,7 @@ static int vf_live_since(long seq0, char *buf, size_t bl) {
 #ifdef VF_INLINE_THREADS
 /* Engine Q: the library's pthread calls are renamed to these.  Each worker runs to completion inside
  * "create" (a legal schedule: worker 0 takes every panel, the others find the queue drained). */
-int vf_thread_create(pthread_t *t, const pthread_attr_t *a, void *(*fn)(void *), void *arg) { (void)a; *t = (pthread_t)0; fn(arg); return 0; }
+int vf_thread_create(pthread_t *t, const pthread_attr_t *a, void *(*fn)(void *), void *arg) { (void)a; *t = (pthread_t)0; vf_threads_created++; fn(arg); return 0; }
 int vf_thread_join(pthread_t t, void **st) { (void)t; if (st) *st = NULL; return 0; }
 int vf_mutex_init(pthread_mutex_t *m, const void *a) { (void)m; (void)a; return 0; }
 int vf_mutex_destroy(pthread_mutex_t *m) { (void)m; return 0; }
@@ -640,7 +642,8 @@ static void vf_neutral_name(const char *in, char *out, size_t ol) {
     char *p = strstr(out, "@"); p = p ? p + 1 : out;
     if (p[0] == 'p' && strchr("sdcz", p[1]) && p[2] == 'g') p[1] = 'X';
     else if (strchr("sdcz", p[0]) && p[0] && (p[1] == 'g' || !strncmp(p + 1, "la", 2) || !strncmp(p + 1, "sp_", 3) || !strncmp(p + 1, "read", 4) || !strncmp(p+1, "Pivot", 5))) p[0] = 'X';
-    else if (!strncmp(p, "sp_", 3) && strchr("sdcz", p[3])) p[3] = 'X';
+    else if (p[0] == 'p' && strchr("sdcz", p[1]) && p[1] && (!strncmp(p + 2, "util", 4) || !strncmp(p + 2, "memory", 6))) p[1] = 'X';
+    else if (!strncmp(p, "sp_", 3) && strchr("sdcz", p[3]) && p[3] && (!strncmp(p + 4, "gem", 3) || !strncmp(p + 4, "trsv", 4))) p[3] = 'X';
     else if (strchr("cz", p[0]) && p[0] && !strncmp(p + 1, "_abs", 4)) p[0] = 'X';
 }
 enum { VF_OK = 0, VF_EXIT, VF_SIGNAL, VF_ASAN, VF_TIMEOUT, VF_FAULT };
